@@ -2834,8 +2834,14 @@ class WorkflowGraph(object):
             ref_condition, (cond_stage, cond_name)
         ))
 
+        # VV: the stage index in the condition is relative to the stage that imports the DoWhile document
+        condition_stage = (FlowIR.ParseDataReferenceFull(ref_condition, 0)[0] or 0) + import_in_stage
+
         condition_instances = sorted(
-            [c for c in all_looped_ids if c[1].split('#', 1)[1] == cond_name],
+            # VV: the condition is produced in a specific stage of the loop; a component with the same name in a
+            # different stage (e.g. in another DoWhile document) is not an instance of it
+            [c for c in all_looped_ids if c[1].split('#', 1)[1] == cond_name
+             and int(c[0]) == condition_stage],
             # VV: Sort on iteration number from stage<idx:%d>.<iteration-no:%d>#<name:str>
             key=lambda c: int(c[1].split('#', 1)[0]),
             reverse=True
